@@ -124,9 +124,15 @@ def fresh_dir(path):
 
 
 @contextlib.contextmanager
-def cwd(path):
+def cwd(path, gone=False):
+    """run the body with `path` as working directory; gone=True removes the (empty) directory after entering it, so that
+    the process sits in a working directory that no longer exists (os.getcwd() raises there)"""
     old = os.getcwd()
+    if gone:
+        os.makedirs(path, exist_ok=True)
     os.chdir(path)
+    if gone:
+        os.rmdir(path)
     try:
         yield
     finally:
